@@ -15,9 +15,24 @@ ASSUMPTIONS = [
     'dimensions 1, 2, 3 (the only ones any kernel class accepts)',
     'Gaussian family: unit mass is that of the untruncated kernel; the truncation at q = 3 is a stated downward jump',
 ]
-READY = False
+READY = True
 DESIGN_REF = '6/C08'
 TECHNIQUE = 'Lean 4 proof over tables regenerated from kernels.py by a translator + translator validation + oracle on the real code'
-LEVEL_TEXT = ''
-LEVEL_NOTE = ''
+LEVEL_TEXT = ("Lean 4 theorems over ALL 21 kernel tables (10 classes x admissible dimensions), every h > 0 and every real r, "
+              "about coefficient tables regenerated on every run from pysph/base/kernels.py by symbolic execution "
+              "(translate/kernels2lean.py): support (kernel, dwdq, gradient vanish for r >= radius_scale*h), dwdq = derivative of "
+              "the shape function and = h*dW/dr, gradient_h = dW/dh (HasDerivAt over the reals; at every q for the C1 spline/Wendland "
+              "tables, away from the truncation edge for the Gaussian family), kernel non-increasing and non-negative (Moebius sign "
+              "certificate; super-Gaussian exempt), gradient = dwdq/h * xij/r and zero within the 1e-12 guard, normalisation in radial "
+              "form S_d*int_0^{R h} r^(d-1) W(r,h) dr = 1 as an interval integral of the piece-wise function for every h, Gaussian family "
+              "fac = pi^(-d/2) with unit mass of the untruncated Gaussian.  General lemmas (formal derivative = derivative, certificate "
+              "soundness, piece-wise antitonicity, C1 junctions, FTC per piece) are proved once; per-table facts are closed by "
+              "decide +kernel on the generated rationals, so they are re-checked against whatever the source says today.  The translator "
+              "is validated on every run (exact evaluation of the tables in Lean vs the Python classes on r across and exactly on every "
+              "breakpoint, h over 12 decades), the compiled twins are compared with the Python classes and with the mako rendering, and "
+              "the property's own predicate is evaluated on the real code (Python and compiled) to produce replays.")
+LEVEL_NOTE = ("Trusted: Lean kernel + Mathlib, axioms propext/Classical.choice/Quot.sound; translate/kernels2lean.py (validated each run, "
+              "~12k points quick); exact real arithmetic in place of IEEE doubles (float literals read as decimals); the polar-coordinate "
+              "identity int_{R^d} f(|x|) dx = S_d int r^(d-1) f(r) dr is not mechanised (normalisation is claimed in radial form); "
+              "super-Gaussian unit mass is checked numerically only (its fac = pi^(-d/2) is proved); Cython/g++/libm for the compiled twins.")
 TIMEOUT = {'quick': 900, 'thorough': 3600}
